@@ -1,6 +1,6 @@
 (* C13 ResponseWriter: one status first, truthful Status/Size/Written, hooks once.
    Only statements, each closed by an already proved lemma. *)
-Require Import Base RW RWProofs.
+Require Import Base RW RWProofs RWStack.
 
 (* The property is the judgement [spec_ok] on (operations, per-operation outputs): the
    first WriteHeader/Write/Flush makes every hook registered so far run once, in reverse
@@ -34,6 +34,33 @@ Theorem C13_hooks_in_one_operation : forall head ops outs,
   spec_ok head ops outs = true -> count has_hook outs <= 1.
 Proof. exact spec_hooks_once. Qed.
 
+(* A writer over a writer (an instance mounted on another, a handler that wraps the writer it was given):
+   W1 = NewResponseWriter(m1, spy) lives through [pre], then W2 = NewResponseWriter(m2, W1) gets [ops].
+   Over the whole life of the stack the spy still receives at most one status line, before any body byte,
+   and every answer of W2 is that of a fresh one-writer machine on the operations as W2 meets them (its
+   own status and byte count, never W1's). *)
+Theorem C13_stack_one_status : forall head1 head2 pre ops,
+  forallb valid_op pre = true -> forallb valid_op ops = true ->
+  count is_wh (spy_trace head1 head2 pre ops) <= 1.
+Proof. exact stack_one_status. Qed.
+
+Theorem C13_stack_status_before_body : forall head1 head2 pre ops,
+  forallb valid_op pre = true -> forallb valid_op ops = true ->
+  status_first false (spy_trace head1 head2 pre ops) = true.
+Proof. exact stack_status_first. Qed.
+
+Theorem C13_stack_upper_answers : forall head1 head2 ops s1 s2,
+  filter is_ans (concat (stack_run_from head1 head2 (s1, s2) ops)) =
+  filter is_ans (concat (run_from head2 s2 (map (view head1) ops))).
+Proof. exact stack_answers. Qed.
+
+(* W1 has answered 404 already; W2 on top starts afresh: its before function runs, its Status is its own 201,
+   the spy sees no second status line, the body goes through *)
+Example C13_example_stack :
+  stack_run false false [OWriteHeader 404] [OBefore 7 false; OStatus; OWriteHeader 201; OStatus; OWrite [104]%N 1%N; OSize]
+  = [[]; [AStatus 0]; [EHook 7 0]; [AStatus 201]; [UWrite [104]%N 1%N]; [ASize 1]].
+Proof. vm_compute. reflexivity. Qed.
+
 (* non-vacuity: a concrete history with hooks, a late WriteHeader and a short write *)
 Example C13_example :
   run false [OBefore 1 false; OBefore 2 false; OStatus; OWrite [104; 105]%N 1%N; OWriteHeader 404; OBefore 3 false; OSize; OStatus; OWritten]
@@ -52,3 +79,5 @@ Redirect "assum/C13.2" Print Assumptions C13_at_most_one_status.
 Redirect "assum/C13.3" Print Assumptions C13_status_before_body.
 Redirect "assum/C13.4" Print Assumptions C13_head_forwards_no_body.
 Redirect "assum/C13.5" Print Assumptions C13_hooks_in_one_operation.
+Redirect "assum/C13.6" Print Assumptions C13_stack_one_status.
+Redirect "assum/C13.7" Print Assumptions C13_stack_upper_answers.
